@@ -89,9 +89,17 @@ def run_cases(ctx, binp, cases, res, nconc, env=None, timeout=1800):
 
 def died(ctx, binp, cases, res, nconc, info, env=None):
     """The process hosting the interpreter died during case info['id'].  Reproduce; decide what it means."""
-    s2, info2 = run_cases(ctx, binp, cases, res, nconc, env=env)
-    if info2 is None or info2["id"] != info["id"]:
+    # reproduce: the same case file again (a death that depends on the interleaving of concurrent runs may strike during another case;
+    # any second death of the process counts, none in three more runs does not)
+    info2 = None
+    for _ in range(3):
+        s2, info2 = run_cases(ctx, binp, cases, res, nconc, env=env)
+        if info2 is not None:
+            break
+    if info2 is None:
         raise Broken("harness process death during %s not reproduced" % info["id"])
+    if info2["id"] != info["id"]:
+        info = dict(info2, first_death_during=info["id"])
     # the same case alone in a fresh process
     lines = [l for l in open(cases) if json.loads(l)["id"] == info["id"]]
     one = os.path.join(ctx.work, "died_one.ndjson")
